@@ -66,7 +66,7 @@ type report struct {
 	GoStmts        int            `json:"go_statements_rewritten"`
 	MapRanges      int            `json:"map_ranges_rewritten"`
 	PointerKeyMaps []string       `json:"map_ranges_with_unordered_keys"`
-	ChannelOps     []string       `json:"channel_operations_left_real"`
+	ChannelOps     int            `json:"channel_operations_rewritten"`
 	Passthrough    map[string]int `json:"selectors_left_real"`
 }
 
@@ -175,11 +175,14 @@ func main() {
 	must(os.WriteFile(filepath.Join(*out, "go.mod"), append(gomod, extra...), 0644))
 	must(copyFile(filepath.Join(*repo, "go.sum"), filepath.Join(*out, "go.sum")))
 
-	sort.Strings(rep.ChannelOps)
 	sort.Strings(rep.PointerKeyMaps)
 	rj, _ := json.MarshalIndent(rep, "", " ")
 	must(os.WriteFile(filepath.Join(*out, "simgen-report.json"), rj, 0644))
 	fmt.Printf("simgen: %d files, %d go statements, %d map ranges, selectors %v\n", rep.Files, rep.GoStmts, rep.MapRanges, rep.Selectors)
+}
+
+func simchanCall(fn string, args ...ast.Expr) *ast.CallExpr {
+	return &ast.CallExpr{Fun: &ast.SelectorExpr{X: ast.NewIdent("simchan"), Sel: ast.NewIdent(fn)}, Args: args}
 }
 
 func copyFile(src, dst string) error {
@@ -213,6 +216,7 @@ func rewrite(p *packages.Package, f *ast.File, rep *report) []byte {
 		return fmt.Sprintf("%s:%d", filepath.Base(ps.Filename), ps.Line)
 	}
 	tmp := 0
+	inSelect := map[ast.Node]bool{}
 
 	astutil.Apply(f, func(c *astutil.Cursor) bool {
 		switch n := c.Node().(type) {
@@ -235,18 +239,100 @@ func rewrite(p *packages.Package, f *ast.File, rep *report) []byte {
 					rep.Passthrough[path+"."+n.Sel.Name]++
 				}
 			}
-		case *ast.SendStmt:
-			rep.ChannelOps = append(rep.ChannelOps, pos(n)+" send")
-		case *ast.UnaryExpr:
-			if n.Op == token.ARROW {
-				rep.ChannelOps = append(rep.ChannelOps, pos(n)+" receive")
-			}
 		case *ast.SelectStmt:
-			rep.ChannelOps = append(rep.ChannelOps, pos(n)+" select")
+			// the communications of a select are rewritten with the select itself
+			for _, st := range n.Body.List {
+				cc := st.(*ast.CommClause)
+				switch cm := cc.Comm.(type) {
+				case *ast.SendStmt:
+					inSelect[cm] = true
+				case *ast.ExprStmt:
+					inSelect[ast.Unparen(cm.X)] = true
+				case *ast.AssignStmt:
+					inSelect[ast.Unparen(cm.Rhs[0])] = true
+				}
+			}
 		}
 		return true
 	}, func(c *astutil.Cursor) bool {
 		switch n := c.Node().(type) {
+		case *ast.SendStmt:
+			if inSelect[n] {
+				return true
+			}
+			c.Replace(&ast.ExprStmt{X: simchanCall("Send", n.Chan, n.Value)})
+			need["simchan"] = true
+			rep.ChannelOps++
+		case *ast.UnaryExpr:
+			if n.Op != token.ARROW || inSelect[n] {
+				return true
+			}
+			fn := "Recv"
+			switch par := c.Parent().(type) {
+			case *ast.AssignStmt:
+				if len(par.Lhs) == 2 && len(par.Rhs) == 1 {
+					fn = "Recv2"
+				}
+			case *ast.ValueSpec:
+				if len(par.Names) == 2 && len(par.Values) == 1 {
+					fn = "Recv2"
+				}
+			}
+			c.Replace(simchanCall(fn, n.X))
+			need["simchan"] = true
+			rep.ChannelOps++
+		case *ast.CallExpr:
+			if id, ok := n.Fun.(*ast.Ident); ok && id.Name == "close" && len(n.Args) == 1 {
+				if _, ok := info.Uses[id].(*types.Builtin); ok {
+					n.Fun = &ast.SelectorExpr{X: ast.NewIdent("simchan"), Sel: ast.NewIdent("Close")}
+					need["simchan"] = true
+					rep.ChannelOps++
+				}
+			}
+		case *ast.SelectStmt:
+			need["simchan"] = true
+			rep.ChannelOps++
+			if len(n.Body.List) == 0 {
+				c.Replace(&ast.ExprStmt{X: simchanCall("Select", ast.NewIdent("false"))})
+				return true
+			}
+			hasDefault := "false"
+			var args []ast.Expr
+			var clauses []ast.Stmt
+			for _, st := range n.Body.List {
+				cc := st.(*ast.CommClause)
+				body := []ast.Stmt{&ast.AssignStmt{Lhs: []ast.Expr{ast.NewIdent("_"), ast.NewIdent("_")}, Tok: token.ASSIGN, Rhs: []ast.Expr{ast.NewIdent("simR"), ast.NewIdent("simOK")}}}
+				if cc.Comm == nil {
+					hasDefault = "true"
+					clauses = append(clauses, &ast.CaseClause{Body: append(body, cc.Body...)})
+					continue
+				}
+				idx := &ast.BasicLit{Kind: token.INT, Value: fmt.Sprint(len(args))}
+				switch cm := cc.Comm.(type) {
+				case *ast.SendStmt:
+					args = append(args, simchanCall("S", cm.Chan, cm.Value))
+				case *ast.ExprStmt:
+					args = append(args, simchanCall("R", ast.Unparen(cm.X).(*ast.UnaryExpr).X))
+				case *ast.AssignStmt:
+					ch := ast.Unparen(cm.Rhs[0]).(*ast.UnaryExpr).X
+					args = append(args, simchanCall("R", ch))
+					rhs := []ast.Expr{simchanCall("Got", ch, ast.NewIdent("simR"))}
+					if len(cm.Lhs) == 2 {
+						rhs = append(rhs, ast.NewIdent("simOK"))
+					}
+					body = append(body, &ast.AssignStmt{Lhs: cm.Lhs, Tok: cm.Tok, Rhs: rhs})
+				}
+				clauses = append(clauses, &ast.CaseClause{List: []ast.Expr{idx}, Body: append(body, cc.Body...)})
+			}
+			c.Replace(&ast.SwitchStmt{
+				Init: &ast.AssignStmt{
+					Lhs: []ast.Expr{ast.NewIdent("simI"), ast.NewIdent("simR"), ast.NewIdent("simOK")},
+					Tok: token.DEFINE,
+					Rhs: []ast.Expr{simchanCall("Select", append([]ast.Expr{ast.NewIdent(hasDefault)}, args...)...)},
+				},
+				Tag:  ast.NewIdent("simI"),
+				Body: &ast.BlockStmt{List: clauses},
+			})
 		case *ast.RangeStmt:
 			t := info.TypeOf(n.X)
 			if t == nil {
@@ -265,7 +351,9 @@ func rewrite(p *packages.Package, f *ast.File, rep *report) []byte {
 				need["simrt"] = true
 				rep.MapRanges++
 			case *types.Chan:
-				rep.ChannelOps = append(rep.ChannelOps, pos(n)+" range")
+				n.X = simchanCall("Range", n.X)
+				need["simchan"] = true
+				rep.ChannelOps++
 			}
 		case *ast.GoStmt:
 			call := n.Call
